@@ -42,6 +42,27 @@ class _KnownHit(Exception):
     pass
 
 
+class Collector:
+    """Lets a harness keep checking after a deviation that is a listed (open) known finding:
+    `report` raises at once for anything else, stashes known ones; `finish` re-raises the first
+    stashed one so the path is still counted as a known hit.  Without this a known finding that
+    shows early on a path would mask every later assertion of that path."""
+
+    def __init__(self):
+        self.stash = None
+
+    def report(self, msg, signature=None):
+        if signature in KNOWN_SIGNATURES:
+            if self.stash is None:
+                self.stash = Violation(msg, signature=signature)
+            return
+        raise Violation(msg, signature=signature)
+
+    def finish(self):
+        if self.stash is not None:
+            raise self.stash
+
+
 def assume(cond):
     """Precondition: prune this path when false (placed before the code it constrains)."""
     if not cond:
@@ -185,6 +206,10 @@ def explore(fn, budget_s=60.0, per_path_timeout=20.0, max_violations=3,
                         k = st['known'].setdefault(sig_, dict(count=0, args=None, msg=str(exc)[:500]))
                         k['count'] += 1
                         st['confirmed'] += 1
+                        if CTX.reached:
+                            st['reached'] += 1
+                            if count_keys and CTX.key is not None:
+                                keys.add(hash(CTX.key))
                         raise _KnownHit
                     real_args = deep_realize(dict(pre_args.arguments))
                     rec = dict(args=_jsonable(real_args), exc_type=type(exc).__name__,
